@@ -8,7 +8,12 @@
 (* concatenates the per-process traces, separated by `trace.reset` lines   *)
 (* that name the role, and replaces 64-bit file keys by small ids.  This   *)
 (* module is the session / transfer lifecycle those processes must follow; *)
-(* it is written as a monitor: every line is consumed, a line whose guard  *)
+(* Traces of in-process transfers (driver-level SendManifestMultiStream /   *)
+(* RecvManifestMultiStream pairs, role "inproc") start in the transfer     *)
+(* phase and carry both ends' events; traces of the receiver child         *)
+(* processes of the kill drivers (role "child") likewise, possibly cut     *)
+(* short by the kill.                                                      *)
+(* It is written as a monitor: every line is consumed, a line whose guard  *)
 (* does not hold is recorded in `viol` with the name of the rule, so that  *)
 (* the rest of the trace is still checked.                                 *)
 (*                                                                         *)
@@ -21,8 +26,14 @@
 (*                         successful authentication                       *)
 (*  C09.auth_without_conn  authentication starts on a committed connection *)
 (*  C05.mark_before_write  a chunk is marked complete only after its write *)
-(*  C05.write_unknown_file a chunk is written only into a begun,           *)
-(*                         unfinished file and inside its chunk range      *)
+(*  C05.write_unknown_file a chunk is written only into a begun file,       *)
+(*                         inside its chunk range                          *)
+(*  OBS.write_after_ok_finalize  (observation, no listed property): a      *)
+(*                         chunk frame written after the file was          *)
+(*                         finalized ok - a forced tail re-send whose      *)
+(*                         frame is overtaken by FileEnd on the control    *)
+(*                         stream; harmless because the receive call       *)
+(*                         drains its data streams before it returns       *)
 (*  C02.finalize_ok_short  a fresh file is finalized ok only with all its  *)
 (*                         chunks written (the `written` hook precedes the *)
 (*                         bitmap update in the writing goroutine, so its  *)
@@ -60,7 +71,7 @@ TotalOf(f) == IF \E p \in total : p[1] = f THEN (CHOOSE p \in total : p[1] = f)[
 Handle(e) ==
   LET pt == e.pt a == e.a b == e.b s == e.s IN
   CASE pt = "trace.reset" ->
-         /\ role' = s /\ phase' = "idle" /\ won' = 0 /\ fb' = {} /\ total' = {} /\ written' = {} /\ marked' = {} /\ fin' = {}
+         /\ role' = s /\ phase' = (IF s \in {"inproc", "child"} THEN "xfer" ELSE "idle") /\ won' = 0 /\ fb' = {} /\ total' = {} /\ written' = {} /\ marked' = {} /\ fin' = {}
          /\ sEnded' = {} /\ sDone' = {} /\ flush' = {} /\ fresh' = (a = 0) /\ UNCHANGED viol
     [] pt = "ice.dial.won" ->
          /\ won' = won + 1 /\ viol' = viol \cup Flag(won = 0, "C09.two_winners")
@@ -86,7 +97,8 @@ Handle(e) ==
     [] pt = "recv.chunk.written" ->
          /\ written' = written \cup {<<a, b>>}
          /\ viol' = viol \cup Flag(phase = "xfer", "C08.data_before_auth")
-                         \cup Flag(a \in fb /\ a \notin {x[1] : x \in fin} /\ b < TotalOf(a), "C05.write_unknown_file")
+                         \cup Flag(a \in fb /\ b < TotalOf(a), "C05.write_unknown_file")
+                         \cup Flag(<<a, 1>> \notin fin, "OBS.write_after_ok_finalize")
          /\ UNCHANGED <<role, phase, won, fb, total, marked, fin, sEnded, sDone, flush, fresh>>
     [] pt = "recv.chunk.marked" ->
          /\ marked' = marked \cup {<<a, b>>}
